@@ -99,13 +99,13 @@ def check(prog, rep):
     # ------------------------------------------------------------------ R15.3 stack discipline
     ba = exact_arm(dit, prog, "BinaryOp")
     roles = _child_roles(ba, arm_env(ba), dit.subject, it.name, "iterative")
-    rep.ob("R15.3", it.name, roles.get("__ok__", False), roles.get("__why__", "push/pop pattern not recognised"), loc=f"{it.module.rel}:{ba.lineno}", detail="push/pop")
+    rep.pin("post-order machines", "R15.3", it.name, roles.get("__ok__", False), roles.get("__why__", "push/pop pattern not recognised"), loc=f"{it.module.rel}:{ba.lineno}", detail="push/pop")
     deg_it = prog.func(PAIRS[1][2])
     ok, why = _degree_stack(deg_it)
-    rep.ob("R15.3", deg_it.name, ok, why, loc=deg_it.loc, detail="push/pop")
+    rep.pin("post-order machines", "R15.3", deg_it.name, ok, why, loc=deg_it.loc, detail="push/pop")
     g_it = prog.func(PAIRS[0][2])
     ok, why = _gradient_results_by_id(g_it)
-    rep.ob("R15.3", g_it.name, ok, why, loc=g_it.loc, detail="results-keyed-by-node")
+    rep.pin("post-order machines", "R15.3", g_it.name, ok, why, loc=g_it.loc, detail="results-keyed-by-node")
 
     # ------------------------------------------------------------------ R15.4
     thresholds = {}
